@@ -45,8 +45,18 @@ static ACQ: AtomicU64 = AtomicU64::new(0);
 static CONTENDED: AtomicU64 = AtomicU64::new(0);
 static MAX_WAIT_US: AtomicU64 = AtomicU64::new(0);
 static LAST_KIND: AtomicUsize = AtomicUsize::new(99);
-static TRANS: [AtomicU64; 7 * 7] = [const { AtomicU64::new(0) }; 49];
-static BYKIND: [AtomicU64; 7] = [const { AtomicU64::new(0) }; 7];
+const NKIND: usize = 11;
+static TRANS: [AtomicU64; NKIND * NKIND] = [const { AtomicU64::new(0) }; NKIND * NKIND];
+static BYKIND: [AtomicU64; NKIND] = [const { AtomicU64::new(0) }; NKIND];
+static V_VERDICT_DISTURBED: AtomicU64 = AtomicU64::new(0);
+
+/// an async function shared by all threads (kinds 7 and 8 fake its poll function)
+pub async fn shared_async(x: u32) -> u32 {
+    std::hint::black_box(x + 0x5A00)
+}
+fn await_shared(x: u32) -> u32 {
+    super::pool::block_on(shared_async(x)).0
+}
 thread_local! {
     static MY_VAL: std::cell::Cell<i32> = const { std::cell::Cell::new(0) };
 }
@@ -85,6 +95,9 @@ impl Drop for LiveMark {
 
 /// kinds: 0 inj+fake/drop 1 inj+fake/panic 2 inj-noinstall/drop 3 inj-noinstall/panic 4 preventer/drop 5 preventer/panic
 /// 6 inj + fake!(times) left under-called: the scope exit itself panics in call-count verification
+/// 7 inj whose first operation is when_called_async (checked), 8 ... when_called_async_unchecked,
+/// 9 inj whose first operation is when_called_unchecked, 10 inj + fake!(times: K) called exactly K times
+/// through a call site shared by all threads: the scope exit must not panic
 fn one_scope(tid: usize, kind: usize, epoch: u64, rng: &mut Rng, plain_probe: bool) {
     enum G {
         I(InjectorPP),
@@ -95,7 +108,7 @@ fn one_scope(tid: usize, kind: usize, epoch: u64, rng: &mut Rng, plain_probe: bo
     WAITERS.fetch_add(1, Ordering::SeqCst);
     // declared before the guard: dropped after the guard's destructor has returned
     let live;
-    let mut guard = if kind < 4 || kind == 6 { G::I(InjectorPP::new()) } else { G::P(InjectorPP::prevent()) };
+    let mut guard = if kind < 4 || kind >= 6 { G::I(InjectorPP::new()) } else { G::P(InjectorPP::prevent()) };
     WAITERS.fetch_sub(1, Ordering::SeqCst);
     LIVE_GUARDS.fetch_add(1, Ordering::SeqCst);
     live = LiveMark;
@@ -115,8 +128,8 @@ fn one_scope(tid: usize, kind: usize, epoch: u64, rng: &mut Rng, plain_probe: bo
     ACQ.fetch_add(1, Ordering::Relaxed);
     BYKIND[kind].fetch_add(1, Ordering::Relaxed);
     let lk = LAST_KIND.swap(kind, Ordering::SeqCst);
-    if lk < 7 {
-        TRANS[lk * 7 + kind].fetch_add(1, Ordering::Relaxed);
+    if lk < NKIND {
+        TRANS[lk * NKIND + kind].fetch_add(1, Ordering::Relaxed);
     }
     if let Ok(mut o) = ORDER_LOG.try_lock() {
         if o.len() < 1 << 16 {
@@ -144,6 +157,50 @@ fn one_scope(tid: usize, kind: usize, epoch: u64, rng: &mut Rng, plain_probe: bo
             inj.when_called(injectorpp::func!(fn (shared)(i32) -> i32)).will_execute_raw(injectorpp::func!(f, fn(i32) -> i32));
         }
         0x100 + (tid % 16) as i32
+    } else if kind == 7 || kind == 8 {
+        // the first operation of this injector goes through the async entry points
+        let a0 = await_shared(1);
+        if a0 != 0x5A01 {
+            V_FIRST_CALL_NOT_ORIGINAL.fetch_add(1, Ordering::SeqCst);
+            witness(format!("thread {} kind {}: shared async fn returned {:#x} before this holder faked it", tid, kind, a0));
+        }
+        if let G::I(inj) = &mut guard {
+            if kind == 7 {
+                inj.when_called_async(injectorpp::async_func!(shared_async(0), u32)).will_return_async(injectorpp::async_return!(MY_VAL.with(|v| v.get()) as u32, u32));
+            } else {
+                unsafe {
+                    inj.when_called_async_unchecked(injectorpp::async_func_unchecked!(shared_async(0))).will_return_async_unchecked(injectorpp::async_return_unchecked!(MY_VAL.with(|v| v.get()) as u32, u32));
+                }
+            }
+        }
+        MY_VAL.with(|v| v.set(0x300 + (tid % 16) as i32));
+        for _ in 0..3 {
+            let a = await_shared(2);
+            if a != 0x300 + (tid % 16) as u32 {
+                V_INJECTOR_SAW_FOREIGN.fetch_add(1, Ordering::SeqCst);
+                witness(format!("injector holder {} kind {}: await returned {:#x}", tid, kind, a));
+            }
+            std::thread::yield_now();
+        }
+        ORIG + 2
+    } else if kind == 9 {
+        if let G::I(inj) = &mut guard {
+            let f = TF[tid % 16];
+            unsafe {
+                inj.when_called_unchecked(injectorpp::func_unchecked!(shared)).will_execute_raw_unchecked(injectorpp::func_unchecked!(f));
+            }
+        }
+        0x100 + (tid % 16) as i32
+    } else if kind == 10 {
+        MY_VAL.with(|v| v.set(0x400 + (tid % 16) as i32));
+        if let G::I(inj) = &mut guard {
+            inj.when_called(injectorpp::func!(fn (shared)(i32) -> i32)).will_execute(injectorpp::fake!(
+                func_type: fn(_x: i32) -> i32,
+                returns: MY_VAL.with(|v| v.get()),
+                times: 3
+            ));
+        }
+        0x400 + (tid % 16) as i32
     } else if kind == 6 {
         MY_VAL.with(|v| v.set(0x200 + (tid % 16) as i32));
         if let G::I(inj) = &mut guard {
@@ -157,7 +214,7 @@ fn one_scope(tid: usize, kind: usize, epoch: u64, rng: &mut Rng, plain_probe: bo
     } else {
         ORIG + 2
     };
-    let n = 1 + rng.below(4);
+    let n = if kind == 10 { 3 } else { 1 + rng.below(4) };
     for k in 0..n {
         let got = shared(2);
         if got != want {
@@ -180,6 +237,17 @@ fn one_scope(tid: usize, kind: usize, epoch: u64, rng: &mut Rng, plain_probe: bo
     if kind % 2 == 1 && kind < 6 {
         panic!("USER: holder {} leaves by panic", tid);
     }
+    if kind == 10 {
+        // exactly the expected number of calls was made by this holder: its scope exit must be silent,
+        // whatever other threads attempt meanwhile
+        drop(_mark);
+        let r = std::panic::catch_unwind(std::panic::AssertUnwindSafe(move || drop(guard)));
+        if let Err(p) = r {
+            V_VERDICT_DISTURBED.fetch_add(1, Ordering::SeqCst);
+            witness(format!("holder {} made exactly 3 calls of its times:3 fake, yet scope exit panicked: {}", tid, crate::panicobs::payload_msg(&p)));
+        }
+        return;
+    }
     // normal exit: _mark, then guard, then live, then _lib are dropped
 }
 
@@ -201,7 +269,7 @@ pub fn run(ctx: &Ctx) {
         }
         let class = format!("threads={}/delays={}", threads, ["none", "library-syscalls-50us..1ms", "library-syscalls-mixed+yield"][dmode as usize]);
         out::intent(idx, &class, &J::new().n("threads", threads).n("acquisitions", total).s("crash_sig", "exclusion-workload"));
-        for a in [&V_TWO_HOLDERS, &V_OWNER, &V_PREVENTER_SAW_FAKE, &V_INJECTOR_SAW_FOREIGN, &V_FIRST_CALL_NOT_ORIGINAL, &V_PLAIN_LOST_UPDATE, &ACQ, &CONTENDED, &MAX_WAIT_US] {
+        for a in [&V_VERDICT_DISTURBED, &V_TWO_HOLDERS, &V_OWNER, &V_PREVENTER_SAW_FAKE, &V_INJECTOR_SAW_FOREIGN, &V_FIRST_CALL_NOT_ORIGINAL, &V_PLAIN_LOST_UPDATE, &ACQ, &CONTENDED, &MAX_WAIT_US] {
             a.store(0, Ordering::SeqCst);
         }
         for a in TRANS.iter().chain(BYKIND.iter()) {
@@ -246,14 +314,20 @@ pub fn run(ctx: &Ctx) {
                     let mut rng = Rng::new(seed ^ hash64((idx << 8) | tid as u64));
                     barrier.wait();
                     for e in 0..per {
-                        let kind = match rng.below(12) {
+                        let kind = match rng.below(20) {
                             0..=3 => 0,
                             4 => 1,
                             5 => 2,
                             6 => 3,
                             7 | 8 => 4,
                             9 => 5,
-                            _ => 6,
+                            10 | 11 => 6,
+                            12 => 7,
+                            13 => 8,
+                            14 => 9,
+                            15..=17 => 10,
+                            18 => 2,
+                            _ => 4,
                         };
                         if dmode > 0 {
                             let ns = *rng.pick(&[0u64, 0, 50_000, 200_000, 1_000_000]);
@@ -327,17 +401,17 @@ pub fn run(ctx: &Ctx) {
         }
         let mut trans = 0;
         let mut tj = J::new();
-        let names = ["inj+fake/drop", "inj+fake/panic", "inj/drop", "inj/panic", "prevent/drop", "prevent/panic", "inj+times-unmet/exit-panics"];
-        for a in 0..7 {
-            for b in 0..7 {
-                let n = TRANS[a * 7 + b].load(Ordering::SeqCst);
+        let names = ["inj+fake/drop", "inj+fake/panic", "inj/drop", "inj/panic", "prevent/drop", "prevent/panic", "inj+times-unmet/exit-panics", "inj+async-fake-first", "inj+async-unchecked-fake-first", "inj+unchecked-fake-first", "inj+times-met/silent-exit"];
+        for a in 0..NKIND {
+            for b in 0..NKIND {
+                let n = TRANS[a * NKIND + b].load(Ordering::SeqCst);
                 if n > 0 {
                     trans += 1;
                     tj = tj.n(&format!("{}->{}", names[a], names[b]), n);
                 }
             }
         }
-        let byk = (0..7).fold(J::new(), |j, k| j.n(names[k], BYKIND[k].load(Ordering::SeqCst)));
+        let byk = (0..NKIND).fold(J::new(), |j, k| j.n(names[k], BYKIND[k].load(Ordering::SeqCst)));
         let d = J::new()
             .n("threads", threads)
             .n("threads_joined", joined)
@@ -365,6 +439,8 @@ pub fn run(ctx: &Ctx) {
             "injector-holder-did-not-see-its-own-fake"
         } else if V_OWNER.load(Ordering::SeqCst) > 0 {
             "owner-cell-overwritten"
+        } else if V_VERDICT_DISTURBED.load(Ordering::SeqCst) > 0 {
+            "holders-call-count-verdict-disturbed-by-another-thread"
         } else if V_PLAIN_LOST_UPDATE.load(Ordering::SeqCst) > 0 {
             "lost-update-on-lock-protected-cell"
         } else if starved.load(Ordering::SeqCst) {
